@@ -96,6 +96,7 @@ Section M.
         let a := if pad =? 0 then a0 else a0 + (align - pad) in
         if vendor then
           if r_max it <? a + size then Done (it, End (- EINVAL)) else
+          let* _ := rd_bytes rd 4 a in          (* OUI and sub-namespace are read for find_ns (no namespace registered) *)
           let* vnslen := rd_le rd 2 (a + 4) in
           let size' := size + vnslen in
           let a' := a + size' in
